@@ -81,7 +81,7 @@ func (impl Implementation) Dormbr(vect lapack.ApplyOrtho, side blas.Side, trans 
 
 	// Quick return if possible.
 	if m == 0 || n == 0 {
-		work[0] = 1
+		work[0] = float64(max(1, nw))
 		return
 	}
 
